@@ -82,6 +82,7 @@ type qMsg struct {
 	heldBack bool   // seen Queued at a quiescent point while a was connected
 	offline  bool   // published while a was offline
 	collided bool   // a's own PUBLISH used this packet id while the message was outstanding
+	relColl  bool   // a's own PUBREL (of an inbound QoS 2 exchange) used this packet id while the message was outstanding
 	lost     bool   // the broker told us it no longer knows the message
 	tick     int    // number of clock advances before it was published
 	relFault bool   // a's PUBREC was processed by the broker but the write of the PUBREL failed (injected)
@@ -174,7 +175,7 @@ func (q *qModel) count(k string) {
 func (q *qModel) String() string {
 	var b strings.Builder
 	for _, m := range q.msgs {
-		fmt.Fprintf(&b, "%s/q%d/%s/%d/c%v/r%v/%s/%v%v%v%v%v%d ", m.tag, m.qos, qStateNames[m.st], m.pid, m.lastConn == q.conn, m.relConn == q.conn, m.how+fmt.Sprint(m.connTx == q.conn), m.fc, m.heldBack, m.offline, m.collided, m.lost, m.tick)
+		fmt.Fprintf(&b, "%s/q%d/%s/%d/c%v/r%v/%s/%v%v%v%v%v%v%d ", m.tag, m.qos, qStateNames[m.st], m.pid, m.lastConn == q.conn, m.relConn == q.conn, m.how+fmt.Sprint(m.connTx == q.conn), m.fc, m.heldBack, m.offline, m.collided, m.relColl, m.lost, m.tick)
 		if m.relFault {
 			b.WriteString("rf ")
 		}
@@ -227,6 +228,8 @@ func (q *qModel) lostCause(m *qMsg) (prop, cause string) {
 	switch {
 	case m.collided:
 		return "c10", "outbound-deleted-by:client-publish-same-id"
+	case m.relColl:
+		return "c10", "outbound-deleted-by:client-pubrel-same-id"
 	case m.how == "release":
 		return "c09", "lost:after-deferred-release"
 	case m.how == "reconnect" && (m.fc || m.heldBack):
@@ -342,6 +345,8 @@ func (q *qModel) recv(pks []ref.Packet) {
 						switch {
 						case o.collided:
 							why = "after-client-publish-same-id"
+						case o.relColl:
+							why = "after-client-pubrel-same-id"
 						case o.how == "release" || (o.how == "reconnect" && (o.fc || o.heldBack)):
 							why = "after-deferred-release"
 						}
@@ -1058,6 +1063,10 @@ func qosExec(cfg qCfg, ops []string, alts [][]int, prefix []int) (explore.HistRe
 			for _, o := range q.msgs {
 				if o.st == qRecd && o.pid == id {
 					q.count("inbound_pubrel_while_outbound_same_id_awaits_pubcomp")
+				}
+				if (o.st == qSent || o.st == qRecd) && o.pid == id {
+					o.relColl = true
+					q.count("client_pubrel_id_collides_with_outstanding_outbound_id")
 				}
 			}
 			q.arelConn = q.conn
